@@ -32,10 +32,10 @@ Definition opt_list {A} (o : option A) : list A := match o with Some a => [a] | 
 Definition from_prov (prov : N -> presp) (x : N) : option event :=
   match prov x with REv a => if is_state a then Some a else None | _ => None end.
 
-(* The AuthEvents container ignores a repeated AddEvent of the same event; the authorisation
-   rules are a function of the container. This is the only fact about `allowed` the theorems use. *)
-Definition stutter_invariant (allowed : event -> list event -> bool) : Prop :=
-  forall e l1 a l2, allowed e (l1 ++ a :: a :: l2) = allowed e (l1 ++ a :: l2).
+(* "allowed by its auth events" (auth rule 2: considering the event's auth_events, duplicate
+   entries for a (type, state_key) pair reject; then the rules proper) *)
+Definition allowed_by (allowed : event -> list event -> bool) (e : event) (l : list event) : bool :=
+  tuples_distinct l && allowed e l.
 
 Section StateSpec.
   Variable sig_ok : event -> bool.
@@ -66,7 +66,7 @@ Section StateSpec.
     flat_map (fun x => opt_list (resolve_auth x)) (auth_ids e).
 
   (* passes both checks *)
-  Definition good (e : event) : bool := sig_ok e && allowed e (auth_events_of e).
+  Definition good (e : event) : bool := sig_ok e && allowed_by allowed e (auth_events_of e).
 
   (* The filter works by event ID: an event is kept when every event of the response with its ID
      passes both checks (IDs are unique in a well-formed response, see good_id_unique). *)
@@ -109,13 +109,11 @@ Section ChainSpec.
     flat_map (fun x => opt_list (chain_resolve x)) (auth_ids c).
 
   (* c passes: the provider does not fail on any of its auth events, every auth event obtained
-     is a state event, and the rules allow c by them *)
+     is a state event, no two of them are different events for one (type, state_key), and the
+     rules allow c by them *)
   Definition chain_ok (c : event) : Prop :=
     (forall x, In x (auth_ids c) -> x <> eid root -> prov x <> RErr) /\
     forallb is_state (chain_auth_list c) = true /\
-    allowed c (chain_auth_list c) = true.
+    allowed_by allowed c (chain_auth_list c) = true.
 End ChainSpec.
 
-(* ---------- state at event ---------- *)
-Definition lookup_list (m : emap) (ids : list N) : list event :=
-  flat_map (fun x => match mget m x with Some (Some a) => [a] | _ => [] end) ids.
